@@ -168,6 +168,28 @@ def shapes(tier):
     return out
 
 
+def lit_seq(b):
+    return z3.Concat(*[z3.Unit(z3.BitVecVal(x, 8)) for x in b])
+
+
+SEQ8_ = z3.SeqSort(z3.BitVecSort(8))
+JSON_OK = z3.Function('json_ok', SEQ8_, z3.BoolSort())
+CANON = z3.Function('canonical_text', SEQ8_, SEQ8_)
+LIT1, LIT2 = lit_seq(b'[1]'), lit_seq(b'[ 1]')
+
+
+def steer(ctx, q, a, b):
+    """a model of q; when the digest went through a parsed document, first the replayable instance of the library facts"""
+    if getattr(ctx, 'canon_used', False) and a.f.get('_json') is not None and b.f.get('_json') is not None:
+        try:
+            m = ctx.check_sat(zand(q, a.f['_json'].seq == LIT1, b.f['_json'].seq == LIT2))
+            if m is not None:
+                return m
+        except Inconclusive:
+            ctx.stats.unknown -= 1
+    return ctx.check_sat(q)
+
+
 def explore(ctx, shape, tier, report):
     return {'single': explore_single, 'pair': explore_pair, 'sign_verify': explore_sign_verify, 'sign_oracle': explore_sign_oracle}[shape['part']](ctx, shape, tier, report)
 
@@ -183,6 +205,32 @@ def install_stubs(ctx):
     ctx.stubs['<dyn VerifyingKey as VerifyingKey>::verify'] = stub_verify
     ctx.json_quote_exact = True
     import mirsym.models as M
+
+    # a digest that goes through a parsed document: parsing and re-serialising are uninterpreted (JSON_OK, CANON) plus two
+    # true facts about serde_json that give the solver a replayable instance: "[1]" and "[ 1]" are the same document
+    def stub_from_str(ctx_, args, ci, dt):
+        v = deref(args[0])
+        if not (isinstance(v, S) and v.seq is not None):
+            return M.json_from_str(ctx_, args, ci, dt) if hasattr(M, 'json_from_str') else (_ for _ in ()).throw(Unsupported('serde_json::from_str of %r' % (v,)))
+        ctx_.assumptions.add('serde_json::from_str / to_string of a parsed document are uninterpreted (json_ok, canonical_text); library facts used: '
+                             '"[1]" and "[ 1]" parse to the same document whose compact text is "[1]" (confirmed by the native replay of every witness)')
+        if not getattr(ctx_, '_canon_axioms', False) or ctx_._canon_axioms is not ctx_.pc:
+            ctx_.add(z3.And(JSON_OK(LIT1), JSON_OK(LIT2), CANON(LIT1) == LIT1, CANON(LIT2) == LIT1))
+        ctx_.canon_used = True
+        if ctx_.branch(JSON_OK(v.seq)):
+            return ok(Opaque('json-parsed', v.seq))
+        return err(Opaque('serde_json::Error'))
+
+    def stub_to_string(ctx_, args, ci, dt):
+        v = deref(args[0])
+        if isinstance(v, Opaque) and v.tag == 'json-parsed':
+            return ok(S(seq=CANON(v.data), text=True))
+        return M.json_to_string(ctx_, args, ci, dt)
+    ctx.stubs['serde_json::from_str'] = stub_from_str
+    ctx.stubs['from_str'] = stub_from_str
+    ctx.stubs['serde_json::to_string'] = stub_to_string
+    ctx.stubs['to_string'] = stub_to_string
+    ctx.canon_used = False
 
     def json_quote_seq(ctx_, v):
         q = z3.Unit(z3.BitVecVal(0x22, 8))
@@ -208,7 +256,7 @@ def explore_single(ctx, shape, tier, report):
             for fld in a.order:
                 others = [field_eq(a.f[x], b.f[x]) for x in a.order if x != fld]
                 q = zand(znot(field_eq(a.f[fld], b.f[fld])), sa == sb, *others)
-                m = ctx.check_sat(q)
+                m = steer(ctx, q, a, b)
                 report.path(m is None)
                 if m is not None:
                     info['differ'] = [fld]
